@@ -92,3 +92,39 @@ func init() {
 		return fmt.Sprintf("%d %s %s", al.Length(), plus(w), encRows(rowsOf(al)))
 	})
 }
+
+func init() {
+	// C15
+	// mask <alphabet> <rows> <refseq|_> <start> <len> <replace> <nogap> <noref>
+	register("mask", func(a []string) string {
+		al := alFrom(a[1], atoi(a[0]))
+		ref := a[2]
+		if ref == "_" {
+			ref = ""
+		}
+		rep := a[5]
+		if rep == "_" {
+			rep = ""
+		}
+		if err := al.Mask(ref, atoi(a[3]), atoi(a[4]), rep, atob(a[6]), atob(a[7])); err != nil {
+			return "err"
+		}
+		return fmt.Sprintf("ok %d %s", al.Length(), encRows(rowsOf(al)))
+	})
+	// maskocc <alphabet> <rows> <refseq|_> <maxocc> <replace>
+	register("maskocc", func(a []string) string {
+		al := alFrom(a[1], atoi(a[0]))
+		ref := a[2]
+		if ref == "_" {
+			ref = ""
+		}
+		rep := a[4]
+		if rep == "_" {
+			rep = ""
+		}
+		if err := al.MaskOccurences(ref, atoi(a[3]), rep); err != nil {
+			return "err"
+		}
+		return fmt.Sprintf("ok %d %s", al.Length(), encRows(rowsOf(al)))
+	})
+}
